@@ -33,6 +33,20 @@ fn parse_hex(v: &Value) -> f64 {
 }
 
 /// per replica (seed): the runs found in the hook trace file, in per-thread order
+/// One optimiser run (Start .. Return) as seen on one thread.
+struct StageRun {
+    seed: u64,
+    start_bits: u64,
+    final_bits: u64,
+    digest: u64,
+    events: usize,
+}
+
+/// The replicas of an invocation, reconstructed from the hook file without assuming on which
+/// thread, in which order or with which seeds the stages of a replica run: the events of every
+/// thread are cut into optimiser runs; runs are chained by continuity (a stage starts from the
+/// score its predecessor ended with, the same seed preferred); a replica is a maximal chain, named
+/// after the seed of its first stage; its digest is the digest of its stages in chain order.
 fn replicas_from_trace(path: &str) -> Vec<Value> {
     let text = fs::read_to_string(path).unwrap_or_default();
     let mut by_thread: BTreeMap<u64, Vec<(u64, Value)>> = BTreeMap::new();
@@ -43,41 +57,140 @@ fn replicas_from_trace(path: &str) -> Vec<Value> {
             by_thread.entry(t).or_default().push((s, v));
         }
     }
-    // seed -> (hasher, stages, final score)
-    let mut reps: BTreeMap<u64, (DefaultHasher, usize, f64, usize)> = BTreeMap::new();
+    let mut runs: Vec<StageRun> = vec![];
     for (_, mut evs) in by_thread {
         evs.sort_by_key(|e| e.0);
-        let mut cur: Option<u64> = None;
+        let mut cur: Option<(StageRun, DefaultHasher)> = None;
         for (_, v) in evs {
             let ev = v["ev"].as_str().unwrap_or("");
             if ev == "start" {
-                let seed = v["seed"].as_u64().unwrap_or(0);
-                cur = Some(seed);
-                let e = reps.entry(seed).or_insert((DefaultHasher::new(), 0, std::f64::NAN, 0));
-                e.1 += 1;
-                e.2 = parse_hex(&v["score"]);
+                if let Some((mut r, h)) = cur.take() {
+                    r.digest = h.finish();
+                    runs.push(r);
+                }
+                let sb = parse_hex(&v["score"]).to_bits();
+                cur = Some((
+                    StageRun { seed: v["seed"].as_u64().unwrap_or(0), start_bits: sb, final_bits: sb, digest: 0, events: 0 },
+                    DefaultHasher::new(),
+                ));
             }
-            if let Some(seed) = cur {
-                let e = reps.get_mut(&seed).unwrap();
+            if let Some((r, h)) = cur.as_mut() {
                 // the digest covers every field except the thread label and sequence number
                 let mut o = v.clone();
                 o.as_object_mut().map(|m| {
                     m.remove("thread");
                     m.remove("seq");
                 });
-                o.to_string().hash(&mut e.0);
-                e.3 += 1;
+                o.to_string().hash(h);
+                r.events += 1;
                 if ev == "decide" {
-                    e.2 = parse_hex(&v["score_current"]);
+                    r.final_bits = parse_hex(&v["score_current"]).to_bits();
+                }
+            }
+            if ev == "return" {
+                if let Some((mut r, h)) = cur.take() {
+                    r.digest = h.finish();
+                    runs.push(r);
                 }
             }
         }
+        if let Some((mut r, h)) = cur.take() {
+            r.digest = h.finish();
+            runs.push(r);
+        }
     }
-    reps.into_iter()
-        .map(|(seed, (h, stages, score, n))| {
-            json!({"r": seed, "stages": stages, "score_bits": hex(score), "digest": format!("{:016x}", h.finish()), "events": n})
-        })
-        .collect()
+    // chain the runs: pred[b] = a when b continues a
+    let n = runs.len();
+    let mut pred: Vec<Option<usize>> = vec![None; n];
+    let mut used: Vec<bool> = vec![false; n]; // used as a predecessor
+    // runs are produced in a deterministic order only per thread: sort for a schedule-free result
+    let mut order: Vec<usize> = (0..n).collect();
+    order.sort_by_key(|&i| (runs[i].seed, runs[i].start_bits, runs[i].final_bits, runs[i].digest));
+    for pass in 0..2 {
+        for &b in &order {
+            if pred[b].is_some() {
+                continue;
+            }
+            let cand = order.iter().cloned().find(|&a| {
+                a != b
+                    && !used[a]
+                    && runs[a].final_bits == runs[b].start_bits
+                    && (pass == 1 || runs[a].seed == runs[b].seed)
+                    // no cycles: a must not (transitively) continue b
+                    && {
+                        let mut x = Some(a);
+                        let mut ok = true;
+                        let mut guard = 0;
+                        while let Some(i) = x {
+                            if i == b {
+                                ok = false;
+                                break;
+                            }
+                            x = pred[i];
+                            guard += 1;
+                            if guard > n {
+                                break;
+                            }
+                        }
+                        ok
+                    }
+            });
+            // every replica starts from the same input: a first stage that ends where it began
+            // looks like a continuation of any other such stage; with equal seeds that is the
+            // replica's own chain only if the candidate is not itself a first stage of this seed.
+            if let Some(a) = cand {
+                pred[b] = Some(a);
+                used[a] = true;
+            }
+        }
+    }
+    let mut out: Vec<Value> = vec![];
+    for t in 0..n {
+        if used[t] {
+            continue; // not the last stage of its chain
+        }
+        let mut chain = vec![t];
+        let mut x = pred[t];
+        while let Some(i) = x {
+            chain.push(i);
+            x = pred[i];
+        }
+        chain.reverse();
+        let mut h = DefaultHasher::new();
+        let mut events = 0;
+        for &i in &chain {
+            runs[i].digest.hash(&mut h);
+            events += runs[i].events;
+        }
+        out.push(json!({"r": runs[chain[0]].seed, "stages": chain.len(), "score_bits": hex(f64::from_bits(runs[t].final_bits)),
+                        "digest": format!("{:016x}", h.finish()), "events": events}));
+    }
+    out.sort_by_key(|v| v["r"].as_u64().unwrap_or(0));
+    out
+}
+
+/// The score an invocation logged: the last informational line that mentions a score, its last
+/// number; compared with the written score at the precision it was printed with.
+fn logged_score(stderr: &str, written: Option<f64>) -> Option<f64> {
+    let line = stderr
+        .lines()
+        .filter(|l| l.to_lowercase().contains("score") && (l.contains("INFO") || !l.contains("DEBUG") && !l.contains("TRACE")))
+        .last()?;
+    let tok = line
+        .split(|c: char| !(c.is_ascii_digit() || c == '.' || c == '-' || c == '+' || c == 'e' || c == 'E'))
+        .filter(|t| t.chars().any(|c| c.is_ascii_digit()) && t.parse::<f64>().is_ok())
+        .last()?
+        .to_string();
+    let val: f64 = tok.parse().ok()?;
+    if let Some(w) = written {
+        if !tok.contains('e') && !tok.contains('E') {
+            let decimals = tok.split('.').nth(1).map(|d| d.len()).unwrap_or(0);
+            if format!("{:.*}", decimals, w) == tok.trim_start_matches('+') {
+                return Some(w);
+            }
+        }
+    }
+    Some(val)
 }
 
 fn inspect_written<S>(json_path: &str) -> Option<Value>
@@ -114,14 +227,22 @@ pub fn cli_inspect(m: &std::collections::HashMap<String, String>) {
         let mut h = DefaultHasher::new();
         s.hash(&mut h);
         svg_digest = json!(format!("{:016x}", h.finish()));
-        uses = json!(s.matches("href=\"#mol\"").count());
+        // the molecule is drawn through <use> elements: those of the most frequent reference
+        let mut by_ref: BTreeMap<String, usize> = BTreeMap::new();
+        for part in s.split("<use").skip(1) {
+            let tag = part.split('>').next().unwrap_or("");
+            if let Some(k) = tag.find("href=\"") {
+                let r = tag[k + 6..].split('"').next().unwrap_or("").to_string();
+                *by_ref.entry(r).or_insert(0) += 1;
+            }
+        }
+        uses = json!(by_ref.values().cloned().max().unwrap_or(0));
     }
     let stderr = fs::read_to_string(get("stderr")).unwrap_or_default();
-    let logged = stderr
-        .lines()
-        .filter_map(|l| l.find("Final score: ").map(|i| l[i + 13..].trim().to_string()))
-        .last()
-        .and_then(|t| t.parse::<f64>().ok());
+    let written_score = written
+        .as_ref()
+        .and_then(|w| w["score_bits"].as_str().map(|h| parse_hex(&json!(h))));
+    let logged = logged_score(&stderr, written_score);
     let res = json!({
         "replicas": reps, "written": written, "svg_digest": svg_digest, "svg_mol_uses": uses,
         "json_exists": fs::metadata(get("json")).is_ok(), "svg_exists": svg.is_some(),
